@@ -126,7 +126,7 @@ func init() {
 		Level: "model_checking",
 		Rule: "every subset of the configurable script slots of every format (deb 2^7, rpm 2^7, apk 2^6, archlinux 2^6, ipk 2^4) x script byte classes (normal, no trailing newline, CRLF, bytes 0x80-0xff, one file shared by all slots; thorough adds empty and NUL-containing), each slot carrying distinct bytes naming itself; plus every non-empty subset again after a priming build of the same configuration whose script files (same paths) held other bytes; " +
 			"built for real and the slot contents decoded from control members / rpm scriptlet tags / .INSTALL; non-trivial = non-empty subset; distinct = distinct (format, populated slot set, class)",
-		Assumptions: []string{"rpm scriptlets containing NUL are excluded: rpm header strings are NUL-terminated by format"},
+		Assumptions: []string{"rpm scriptlets containing NUL are excluded: rpm header strings are NUL-terminated by format", "for rpm an empty script file and an absent scriptlet tag are the same (a scriptlet is a header string)"},
 		Setup:       setupScripts,
 		Decode:      decodeInto[C09Case],
 		Bounds: func(env *engine.Env) map[string]any {
@@ -234,6 +234,10 @@ func checkC09(env *engine.Env, ci any) engine.Outcome {
 	for _, s := range slots {
 		got, has := pkg.Scripts[s.Target]
 		w, configured := want[s.Target]
+		if c.Format == "rpm" && configured && len(w) == 0 && !has {
+			// an rpm scriptlet is a header string: an empty script and no script are the same thing to rpm
+			continue
+		}
 		switch {
 		case configured && !has:
 			viol("scripts:slot-empty:"+c.Format+":"+s.Target, "slot %s is configured (%s) but absent from the package", s.Target, s.Key)
